@@ -73,20 +73,20 @@ theorem blankG_error {g : Global} {v : Nat} {e : Err} (h : blankG g v = .error e
     | ok b0 => rw [hb] at h; cases h
 
 /-- `blank` fails only for want of an alignment-pattern row -/
-theorem blank_eq (v : Nat) :
+theorem blank_eq_hist (v : Nat) :
     blank v = (patternPosition v >>= fun pos =>
       pure (setupTiming (v * 4 + 17) (setupAdjust (setupProbe (v * 4 + 17) (setupProbe (v * 4 + 17)
         (setupProbe (v * 4 + 17) (Mat.empty (v * 4 + 17)) 0 0) (v * 4 + 17 - 7) 0) 0 (v * 4 + 17 - 7)) pos))) := rfl
 
 theorem blank_ok_of_le {v : Nat} (hv : v ≤ 40) : ∃ b, blank v = .ok b := by
-  rw [blank_eq]
+  rw [blank_eq_hist]
   have hlen : Gen.PATTERN_POSITION_TABLE.length = 40 := by decide
   have : v - 1 < Gen.PATTERN_POSITION_TABLE.length := by omega
   simp only [patternPosition, idx, List.getElem?_eq_getElem this]
   exact ⟨_, rfl⟩
 
 theorem le_of_blank_ok {v : Nat} {b : Mat} (h : blank v = .ok b) : v ≤ 40 := by
-  rw [blank_eq] at h
+  rw [blank_eq_hist] at h
   have hlen : Gen.PATTERN_POSITION_TABLE.length = 40 := by decide
   by_cases hv : v ≤ 40
   · exact hv
